@@ -167,7 +167,7 @@ def parse (args : List String) : Option Parse := do
     | "o.items" => rt := { rt with items := ← v.toNat? }
     | _ => pure ()
   -- the CLI sorts and dedups `--threads` itself
-  if via ≠ "builder" then rt := { rt with th := rt.th.map fun l => (l.mergeSort (· ≤ ·)).eraseDups }
+  if via ≠ "builder" then rt := { rt with th := rt.th.map fun l => dedupAdj (l.mergeSort (· ≤ ·)) }
   let pos := (all "f").map fun h => (⟨exact, str h⟩ : FilterSpec)
   let neg := (all "s").map fun h => (⟨exact, str h⟩ : FilterSpec)
   -- call order: builder skips first (the child applies them before `config_with_args`), else the CLI's
@@ -272,8 +272,9 @@ def nameClash (items : List Item) : Bool :=
   items.any fun a => match a with
     | .generic m _ _ _ => items.any fun b => match b with
       | .group g => g.modPath = m.modPath ∧ g.raw = m.raw
-      | .bench b _ _ => b.modPath = m.modPath ++ [m.raw]       -- a bench inside `mod raw` next to generic `fn raw`
-      | .generic g _ _ _ => g.modPath = m.modPath ++ [m.raw]
+      -- anything inside `mod raw` (at any depth) next to the generic `fn raw`
+      | .bench b _ _ => (m.modPath ++ [m.raw]).isPrefixOf b.modPath
+      | .generic g _ _ _ => (m.modPath ++ [m.raw]).isPrefixOf g.modPath
     | _ => false
 
 def showExecs (es : List Exec) : String :=
@@ -286,6 +287,28 @@ def parseExecs (s : String) : Option (List Exec) :=
     | ["R", slot, arg, calls, th] => do
       some ⟨← slot.toNat?, if arg = "~" then none else some (str arg), ← calls.toNat?, ← th.toNat?⟩
     | _ => none
+
+def showOpts (o : Opts) : String :=
+  let s (v : Option Nat) : String := match v with | some n => toString n | none => "-"
+  let b (v : Option Bool) : String := match v with | some true => "1" | some false => "0" | none => "-"
+  let th := match o.th with | some l => "[" ++ ":".intercalate (l.map toString) ++ "]" | none => "-"
+  s!"{s o.sc} {s o.ss} {th} {b o.ig} {s o.maxt} {s o.mint} {b o.sk} {s o.bytes} {s o.chars} {s o.cycles} {s o.items}"
+
+/-- `ovw a b`: `a.overwrite(b)`; the spec says: per field, `a`'s value if set, else `b`'s -/
+def handleOvw (args : List String) (obs : String) : Option Reply := do
+  match args with
+  | [a, b] =>
+    let oa := (← parseOpts (if a = "+" then "" else a)).getD {}
+    let ob := (← parseOpts (if b = "+" then "" else b)).getD {}
+    let m := showOpts (oa.overwrite ob)
+    let pick {α} (x y : Option α) : Option α := match x with | some v => some v | none => y
+    let want : Opts := { sc := pick oa.sc ob.sc, ss := pick oa.ss ob.ss, th := pick oa.th ob.th, ig := pick oa.ig ob.ig,
+                         maxt := pick oa.maxt ob.maxt, mint := pick oa.mint ob.mint, sk := pick oa.sk ob.sk,
+                         bytes := pick oa.bytes ob.bytes, chars := pick oa.chars ob.chars,
+                         cycles := pick oa.cycles ob.cycles, items := pick oa.items ob.items }
+    some { model := m, verdict := check (obs.trimAscii.toString = showOpts want) "[C15] overwrite is not field-by-field",
+           tag := if a = "+" ∨ b = "+" then "trivial-one-empty" else "both" }
+  | _ => none
 
 def handle (args : List String) (obs : String) : Option Reply := do
   let ps ← parse args
@@ -356,7 +379,8 @@ def handle (args : List String) (obs : String) : Option Reply := do
                   let (calls, _, _) := callsOf execAct eo t
                   e.calls = calls ∧ e.threads = (if calls = 0 then 0 else t))
             match badCalls with
-            | some c => if clash then [] else [s!"[C15][C03] calls / thread counts differ from the per-field resolved options (case {c.path})"]
+            | some c => if clash then [s!"[C15] calls / thread counts differ from the per-field resolved options (F7 name clash) (case {c.path})"]
+                        else [s!"[C15][C03] calls / thread counts differ from the per-field resolved options (case {c.path})"]
             | none => [])
         else []) ++
        -- C17: the label printed for each executed argument case is the value the function received
